@@ -78,6 +78,7 @@ def cases(draw):
         "off": draw(st.sampled_from([0, 0, 1, 2])),
         # ... and be a tile of a larger image: rows / columns labelled from another origin
         "origin": draw(st.sampled_from([None, None, [0, 3], [7, 0], [20, 50]])),
+        "cmax_tight": draw(st.booleans()),
     }
 
 
@@ -129,6 +130,9 @@ def body(ctx: Ctx, p: dict) -> None:
     disps = p["disps"]
     r0_, c0_ = p.get("origin") or (0, 0)
     cvds = build.cost_volume_dataset(cv_np, disps, p["type"], p.get("off", 0), p["subpix"], mask, conf or None, row0=r0_, col0=c0_)
+    if p.get("cmax_tight") and np.isfinite(cv_np).any():
+        # the reported maximal cost is attained by some cost of the volume (a saturated window): it is a cost like another
+        cvds.attrs["cmax"] = float(np.max(np.abs(cv_np[np.isfinite(cv_np)])))
     before = build.snapshot(cvds)
     inv_cfg = p["invalid"]
     inv_val = math.nan if inv_cfg in ("NaN", "NaN-string") else float(inv_cfg)
